@@ -8,7 +8,14 @@
    classifier [rate] (errors/operations >= 0.5).  States [s] are arbitrary
    unless a history is named; histories [ops] are arbitrary lists of calls
    (no bound on their length), from a freshly constructed lifecycle
-   [init cfg], for an arbitrary configuration [cfg]. *)
+   [init cfg], for an arbitrary configuration [cfg].
+
+   The configuration is not frozen at construction: a history may ASSIGN the
+   public attributes max_operations, error_threshold, allow_renewal,
+   max_lifetime, idle_timeout of the live object between calls ([SetMaxOps] ...
+   [SetIdleTimeout]).  [exec cfg s ops] starts with [cfg] in force; the
+   configuration in force after the history is [cfg_exec cfg ops].  In the
+   one-call theorems [cfg] is the configuration in force at that call. *)
 From Coq Require Import ZArith List Bool String.
 From Verif Require Import C09.Model C09.Proofs gen.Gen_C09 gen.Gen_C09_impl C09.GenOk.
 Import ListNotations.
@@ -74,32 +81,85 @@ Theorem c09_tick_true_iff_active :
 Proof. exact tick_true_iff_active_proof. Qed.
 Print Assumptions c09_tick_true_iff_active.
 
-(* 0 <= remaining length <= max_operations after every history of calls with
-   non-negative costs and amounts. *)
+(* An assignment to a configuration attribute of the live object is not a
+   lifecycle call: it returns, emits nothing and changes no lifecycle
+   attribute; a call changes no configuration attribute. *)
+Theorem c09_assignment_changes_only_the_configuration :
+  forall dep rate cfg s o,
+    (is_assignment o = true -> step dep rate current cfg s o = (s, Ret RNone, [])) /\
+    (is_assignment o = false -> cfg_step cfg o = cfg).
+Proof.
+  exact (fun dep rate cfg s o =>
+           conj (assignment_step_proof dep rate cfg s o) (call_keeps_config_proof cfg o)).
+Qed.
+Print Assumptions c09_assignment_changes_only_the_configuration.
+
+(* The configuration in force after a history: an attribute that the history
+   never assigns has the value the constructor was given ... *)
+Theorem c09_config_unassigned_is_constructor_value :
+  forall ops cfg,
+    (Forall (fun o => assigns_max_ops o = false) ops -> max_ops (cfg_exec cfg ops) = max_ops cfg) /\
+    (Forall (fun o => assigns_err_threshold o = false) ops ->
+       err_threshold (cfg_exec cfg ops) = err_threshold cfg) /\
+    (Forall (fun o => assigns_allow_renewal o = false) ops ->
+       allow_renewal (cfg_exec cfg ops) = allow_renewal cfg) /\
+    (Forall (fun o => assigns_max_lifetime o = false) ops ->
+       max_lifetime (cfg_exec cfg ops) = max_lifetime cfg) /\
+    (Forall (fun o => assigns_idle_timeout o = false) ops ->
+       idle_timeout (cfg_exec cfg ops) = idle_timeout cfg).
+Proof. exact config_unassigned_proof. Qed.
+Print Assumptions c09_config_unassigned_is_constructor_value.
+
+(* ... and otherwise the value assigned last, whatever came before. *)
+Theorem c09_config_is_last_assignment :
+  forall cfg ops ops',
+    (forall n, Forall (fun o => assigns_max_ops o = false) ops' ->
+       max_ops (cfg_exec cfg (ops ++ SetMaxOps n :: ops')%list) = n) /\
+    (forall n, Forall (fun o => assigns_err_threshold o = false) ops' ->
+       err_threshold (cfg_exec cfg (ops ++ SetErrThreshold n :: ops')%list) = n) /\
+    (forall b, Forall (fun o => assigns_allow_renewal o = false) ops' ->
+       allow_renewal (cfg_exec cfg (ops ++ SetAllowRenewal b :: ops')%list) = b) /\
+    (forall l, Forall (fun o => assigns_max_lifetime o = false) ops' ->
+       max_lifetime (cfg_exec cfg (ops ++ SetMaxLifetime l :: ops')%list) = l) /\
+    (forall l, Forall (fun o => assigns_idle_timeout o = false) ops' ->
+       idle_timeout (cfg_exec cfg (ops ++ SetIdleTimeout l :: ops')%list) = l).
+Proof. exact config_last_assignment_proof. Qed.
+Print Assumptions c09_config_is_last_assignment.
+
+(* 0 <= remaining length <= max after every history of calls with non-negative
+   costs and amounts, where max is any bound on the max_operations values in
+   force during the history (the constructor's and every one assigned later;
+   with no assignment, or only lower ones: M = max_ops cfg). *)
 Theorem c09_length_in_range :
-  forall dep rate cfg ops,
-    0 <= max_ops cfg -> Forall valid_op ops ->
-    0 <= len (exec dep rate current cfg (init cfg) ops) <= max_ops cfg.
+  forall dep rate cfg ops M,
+    0 <= max_ops cfg <= M -> Forall valid_op ops -> Forall (max_ops_within M) ops ->
+    0 <= len (exec dep rate current cfg (init cfg) ops) <= M.
 Proof. exact length_in_range_proof. Qed.
 Print Assumptions c09_length_in_range.
 
-(* Hayflick bound as a potential: after any history, n = number of unit ticks
-   that reported True since the last renewal (a renew that returned True) or
-   reset, spent = total cost of all ticks that reported True since then:
-   n <= spent, spent + remaining length <= max_operations; in particular
-   n <= max_operations. *)
+(* Hayflick bound as a potential: after any history, cap = the max_operations
+   that was in force when the telomere was last filled (construction, a renew
+   that returned True, reset), n = number of unit ticks that reported True
+   since that renewal, spent = total cost of all ticks that reported True
+   since then: n <= spent, spent + remaining length <= cap; in particular
+   n <= cap, and cap is within every bound M on the max_operations values in
+   force during the history.  (Assigning max_operations does not fill the
+   telomere: it changes neither the length nor the bound until the next
+   renewal.) *)
 Theorem c09_hayflick :
-  forall dep rate cfg ops,
-    0 <= max_ops cfg -> Forall valid_op ops ->
-    let '(s', n, spent) := exec_count dep rate current cfg (init cfg) 0 0 ops in
-    0 <= n /\ n <= spent /\ n + len s' <= max_ops cfg /\
-    spent + len s' <= max_ops cfg /\ n <= max_ops cfg.
+  forall dep rate cfg ops M,
+    0 <= max_ops cfg <= M -> Forall valid_op ops -> Forall (max_ops_within M) ops ->
+    let '(s', cap, n, spent) := exec_count dep rate current cfg (init cfg) (max_ops cfg) 0 0 ops in
+    s' = exec dep rate current cfg (init cfg) ops /\
+    0 <= n /\ n <= spent /\ n + len s' <= cap /\
+    spent + len s' <= cap /\ n <= cap /\ cap <= M.
 Proof. exact hayflick_proof. Qed.
 Print Assumptions c09_hayflick.
 
 (* Renewal is refused — False, nothing emitted, nothing changed — when it is
-   disallowed or the lifecycle is TERMINATED.  (APOPTOTIC is not refused by
-   the code: see Examples.v, ex_renew_apoptotic_not_refused.) *)
+   disallowed (by the configuration in force at the call) or the lifecycle is
+   TERMINATED.  (APOPTOTIC is not refused by the code: see Examples.v,
+   ex_renew_apoptotic_not_refused.) *)
 Theorem c09_renew_refused :
   forall dep rate cfg s a re,
     allow_renewal cfg = false \/ ph s = Terminated ->
@@ -107,13 +167,45 @@ Theorem c09_renew_refused :
 Proof. exact renew_refused_proof. Qed.
 Print Assumptions c09_renew_refused.
 
+(* "Disallowed" is the permission as it stands at the call, not as it stood at
+   construction: from ANY state and ANY configuration, after ANY history in
+   which the last assignment to allow_renewal is False - whatever was called
+   before and after it - renew is refused: False, nothing emitted, nothing
+   changed. *)
+Theorem c09_renew_refused_after_revocation :
+  forall dep rate cfg s ops ops' a re,
+    Forall (fun o => assigns_allow_renewal o = false) ops' ->
+    let hist := (ops ++ SetAllowRenewal false :: ops')%list in
+    step dep rate current (cfg_exec cfg hist) (exec dep rate current cfg s hist) (Renew a re)
+    = (exec dep rate current cfg s hist, Ret (RBool false), []).
+Proof. exact renew_refused_after_revocation_proof. Qed.
+Print Assumptions c09_renew_refused_after_revocation.
+
+(* ... and so a revoked permission ends the extension of life: from any state
+   with renewal disallowed, over every history that neither re-grants it nor
+   calls reset, no call counts as a renewal (every renew returns False), the
+   lifecycle never goes SENESCENT -> ACTIVE again, and the ticks that report
+   True (n unit ticks, total cost spent) fit in the length that was left:
+   spent + remaining length <= length at revocation. *)
+Theorem c09_revoked_renewal_is_final :
+  forall dep rate cfg s ops,
+    allow_renewal cfg = false -> 0 <= len s -> Forall valid_op ops ->
+    Forall (fun o => assigns_allow_renewal o = false /\ o <> Reset) ops ->
+    Forall (fun p => is_renewal (fst p) (snd p) = false) (outcomes dep rate current cfg s ops) /\
+    ~ In (Senescent, Active) (stream dep rate current cfg s ops) /\
+    let '(s', cap, n, spent) := exec_count dep rate current cfg s (len s) 0 0 ops in
+    0 <= n <= spent /\ 0 <= len s' /\ spent + len s' <= len s.
+Proof. exact revoked_renewal_is_final_proof. Qed.
+Print Assumptions c09_revoked_renewal_is_final.
+
 (* Error and time limits force senescence:
    - a record_error made while ACTIVE that reaches the count limit leaves the
      lifecycle SENESCENT and returns False;
    - so does one that reaches the rate limit;
    - after ANY history that leaves the lifecycle ACTIVE the start time and the
-     last-activity time are known, and a check_timeouts made past a configured
-     (non-zero) lifetime or idle limit leaves it SENESCENT and returns False. *)
+     last-activity time are known, and a check_timeouts made past a (non-zero)
+     lifetime or idle limit - the limits in force then, [cfg_exec cfg ops] -
+     leaves it SENESCENT and returns False. *)
 Theorem c09_limits_force_senescence :
   forall dep rate cfg,
     (forall s, ph s = Active -> err_threshold cfg <= err_count s + 1 ->
@@ -125,49 +217,54 @@ Theorem c09_limits_force_senescence :
        step_out dep rate current cfg s RecordError = Ret (RBool false)) /\
     (forall ops,
        let s := exec dep rate current cfg (init cfg) ops in
+       let c := cfg_exec cfg ops in
        ph s = Active ->
        exists t0 t1, started_at s = Some t0 /\ last_activity s = Some t1 /\
-         (((exists l, max_lifetime cfg = Some l /\ l <> 0 /\ l <= now s - t0) \/
-           (exists l, idle_timeout cfg = Some l /\ l <> 0 /\ l <= now s - t1)) ->
-          ph (step_state dep rate current cfg s CheckTimeouts) = Senescent /\
-          step_out dep rate current cfg s CheckTimeouts = Ret (RBool false))).
+         (((exists l, max_lifetime c = Some l /\ l <> 0 /\ l <= now s - t0) \/
+           (exists l, idle_timeout c = Some l /\ l <> 0 /\ l <= now s - t1)) ->
+          ph (step_state dep rate current c s CheckTimeouts) = Senescent /\
+          step_out dep rate current c s CheckTimeouts = Ret (RBool false))).
 Proof. exact limits_force_senescence_proof. Qed.
 Print Assumptions c09_limits_force_senescence.
 
 (* A lifetime limit, once exceeded, stays exceeded however long the clock runs
    on (seconds, whole days, years: elapsed time is never reduced modulo
-   anything): from ANY started state whose age has reached the configured
-   (non-zero) lifetime, after EVERY further history without reset in which the
-   clock does not run backwards, the start time is still the same, the age is
-   still at or past the limit, and a check_timeouts that finds the lifecycle
-   ACTIVE (e.g. after a renewal) leaves it SENESCENT and returns False. *)
+   anything): from ANY started state whose age has reached the (non-zero)
+   lifetime limit l, after EVERY further history without reset in which the
+   clock does not run backwards and after which l is the limit in force (never
+   reassigned - c09_config_unassigned_is_constructor_value - or reassigned to
+   l), the start time is still the same, the age is still at or past the
+   limit, and a check_timeouts that finds the lifecycle ACTIVE (e.g. after a
+   renewal) leaves it SENESCENT and returns False. *)
 Theorem c09_lifetime_expiry_is_permanent :
   forall dep rate cfg ops s t0 l,
     ph s <> Nascent -> started_at s = Some t0 ->
-    max_lifetime cfg = Some l -> l <> 0 -> l <= now s - t0 ->
+    max_lifetime (cfg_exec cfg ops) = Some l -> l <> 0 -> l <= now s - t0 ->
     ~ In Reset ops -> Forall forward_op ops ->
     let s' := exec dep rate current cfg s ops in
     l <= now s' - t0 /\ started_at s' = Some t0 /\
     (ph s' = Active ->
-     ph (step_state dep rate current cfg s' CheckTimeouts) = Senescent /\
-     step_out dep rate current cfg s' CheckTimeouts = Ret (RBool false)).
+     ph (step_state dep rate current (cfg_exec cfg ops) s' CheckTimeouts) = Senescent /\
+     step_out dep rate current (cfg_exec cfg ops) s' CheckTimeouts = Ret (RBool false)).
 Proof. exact lifetime_expiry_permanent_proof. Qed.
 Print Assumptions c09_lifetime_expiry_is_permanent.
 
 (* The same for the idle limit, as long as nothing counts as activity: after
    every history of calls other than tick / heartbeat / reset (with a clock
-   that does not run backwards) an exceeded idle limit is still exceeded, and
-   a check_timeouts that finds the lifecycle ACTIVE leaves it SENESCENT. *)
+   that does not run backwards; attribute assignments are no activity) an
+   exceeded idle limit - the one in force after the history - is still
+   exceeded, and a check_timeouts that finds the lifecycle ACTIVE leaves it
+   SENESCENT. *)
 Theorem c09_idle_expiry_persists_while_quiet :
   forall dep rate cfg ops s t1 l,
     ph s <> Nascent -> last_activity s = Some t1 ->
-    idle_timeout cfg = Some l -> l <> 0 -> l <= now s - t1 ->
+    idle_timeout (cfg_exec cfg ops) = Some l -> l <> 0 -> l <= now s - t1 ->
     Forall quiet_op ops ->
     let s' := exec dep rate current cfg s ops in
     l <= now s' - t1 /\ last_activity s' = Some t1 /\
     (ph s' = Active ->
-     ph (step_state dep rate current cfg s' CheckTimeouts) = Senescent /\
-     step_out dep rate current cfg s' CheckTimeouts = Ret (RBool false)).
+     ph (step_state dep rate current (cfg_exec cfg ops) s' CheckTimeouts) = Senescent /\
+     step_out dep rate current (cfg_exec cfg ops) s' CheckTimeouts = Ret (RBool false)).
 Proof. exact idle_expiry_persists_proof. Qed.
 Print Assumptions c09_idle_expiry_persists_while_quiet.
 
@@ -184,12 +281,14 @@ Print Assumptions c09_depletion_forces_senescence.
 (* Every call returns.  The model is a total function whose outcome type has
    explicit constructors for "raises" (ZeroDivisionError in _check_senescence)
    and "never returns" (re-acquiring a non-reentrant lock): after any valid
-   history every valid call has the outcome [Ret] — in particular the first
+   history (attribute assignments included; an assigned max_operations is
+   positive) every valid call has the outcome [Ret] — in particular the first
    tick of a never-started lifecycle ([ops = []], [o = Tick c]). *)
 Theorem c09_every_call_returns :
   forall dep rate cfg ops o,
     0 <= max_ops cfg -> Forall valid_op ops -> valid_op o ->
-    exists r, step_out dep rate current cfg (exec dep rate current cfg (init cfg) ops) o = Ret r.
+    exists r, step_out dep rate current (cfg_exec cfg ops)
+                       (exec dep rate current cfg (init cfg) ops) o = Ret r.
 Proof. exact every_call_returns_proof. Qed.
 Print Assumptions c09_every_call_returns.
 
@@ -218,15 +317,17 @@ Print Assumptions c09_lock_check_sound.
    gen/Gen_C09_impl.v is produced from operon_ai/state/telomere.py by translators/c09_gen.py: a record [gtel] of
    the attributes Telomere really has and one Gallina function per method, each returning the new attributes, the
    outcome (a value, or Raised for the ZeroDivisionError of length / max_operations) and the (old, new) pairs
-   handed to on_phase_change.  [gstep g t o] is one public call at clock value t; [tproj cfg s] is the object a
-   model state stands for. *)
+   handed to on_phase_change.  [gstep g t o] is one public call at clock value t - or one assignment to a
+   configuration attribute, which is the generated update of that field of the record; [tproj cfg s] is the object
+   a model state stands for when [cfg] is in force. *)
 
 (* Refinement, call by call: on every state, configuration and operation the generated method computes exactly
-   the model's step - attributes, outcome and callback stream. *)
+   the model's step - attributes (the configuration attributes included: none is written by a method, each is
+   read when the method runs), outcome and callback stream. *)
 Theorem c09_gen_step_is_model :
   forall cfg s o,
     gstep (tproj cfg s) (now s) o =
-    (tproj cfg (step_state depleted_f64 rate_hit_f64 current cfg s o),
+    (tproj (cfg_step cfg o) (step_state depleted_f64 rate_hit_f64 current cfg s o),
      step_out depleted_f64 rate_hit_f64 current cfg s o,
      step_trans depleted_f64 rate_hit_f64 current cfg s o).
 Proof. exact gstep_ok. Qed.
@@ -236,7 +337,7 @@ Print Assumptions c09_gen_step_is_model.
 Theorem c09_gen_history_is_model :
   forall ops cfg s,
     gexec (tproj cfg s) (now s) ops =
-      (tproj cfg (exec depleted_f64 rate_hit_f64 current cfg s ops),
+      (tproj (cfg_exec cfg ops) (exec depleted_f64 rate_hit_f64 current cfg s ops),
        now (exec depleted_f64 rate_hit_f64 current cfg s ops)) /\
     gstream (tproj cfg s) (now s) ops = stream depleted_f64 rate_hit_f64 current cfg s ops.
 Proof. exact gen_history_ok. Qed.
@@ -258,10 +359,22 @@ Proof. exact gen_terminated_absorbing. Qed.
 Print Assumptions c09_gen_terminated_absorbing.
 
 (* Hayflick range for the generated code: from a freshly constructed object, after every history of valid calls
-   the remaining length is within [0, max_operations]. *)
+   and assignments the remaining length is within [0, M], M any bound on the max_operations values in force. *)
 Theorem c09_gen_length_in_range :
-  forall cfg ops,
-    0 <= max_ops cfg -> Forall valid_op ops ->
-    0 <= t_len (fst (gexec (tproj cfg (init cfg)) (now (init cfg)) ops)) <= max_ops cfg.
+  forall cfg ops M,
+    0 <= max_ops cfg <= M -> Forall valid_op ops -> Forall (max_ops_within M) ops ->
+    0 <= t_len (fst (gexec (tproj cfg (init cfg)) (now (init cfg)) ops)) <= M.
 Proof. exact gen_length_in_range. Qed.
 Print Assumptions c09_gen_length_in_range.
+
+(* Renewal refused when disallowed, for the generated code: on the object reached by any history whose last
+   assignment to allow_renewal is False the attribute is False and the generated renew returns False, emits
+   nothing and changes nothing. *)
+Theorem c09_gen_renew_refused_after_revocation :
+  forall cfg s ops ops' a re,
+    Forall (fun o => assigns_allow_renewal o = false) ops' ->
+    let g := fst (gexec (tproj cfg s) (now s) (ops ++ SetAllowRenewal false :: ops')%list) in
+    let t := snd (gexec (tproj cfg s) (now s) (ops ++ SetAllowRenewal false :: ops')%list) in
+    t_allow_renewal g = false /\ t_renew g t a re = (g, Ret (RBool false), []).
+Proof. exact gen_renew_refused_after_revocation. Qed.
+Print Assumptions c09_gen_renew_refused_after_revocation.
